@@ -266,6 +266,14 @@ fn ts_txt(s: &str) -> Option<String> {
 fn int_line(dbg: &str) -> Option<String> {
     let next_id = until(after(dbg, "next_id: ")?, &[' ', '}']).to_string();
     let tag = opt_num(after(dbg, "block_idx: ")?)?;
+    // contents of the one cached block: 16 lines "<64 hex digits> <ascii>" after "Block:"
+    let mut cached = Vec::with_capacity(512);
+    for line in after(dbg, "Block:\n")?.lines().take(16) {
+        let h = line.split(' ').next()?;
+        if h.len() != 64 { return None; }
+        cached.extend(unhex(h));
+    }
+    let cache_hash = hash_bytes(&cached);
     let vols_txt = after(dbg, "open_volumes: [")?;
     let dirs_pos = vols_txt.find("open_dirs: [")?;
     let (vols_txt, rest) = vols_txt.split_at(dirs_pos);
@@ -321,7 +329,7 @@ fn int_line(dbg: &str) -> Option<String> {
         let dirty = if until(after(entry, "dirty: ")?, &[' ', '}', ',']) == "true" { 1 } else { 0 };
         files.push(format!("{}:{}:{}:{}:{}:{}:{}:{}:{}:{}:{}:{}", id, vol, cur_off, cur_cl, off, mode, size, ecl, dirty, eblk, eoff, mtime));
     }
-    Some(format!("id={} vols=[{}] dirs=[{}] files=[{}] tag={}", next_id, vols.join(";"), dirs.join(";"), files.join(";"), tag))
+    Some(format!("id={} vols=[{}] dirs=[{}] files=[{}] tag={} cache={}", next_id, vols.join(";"), dirs.join(";"), files.join(";"), tag, cache_hash))
 }
 
 type VM<'a, const D: usize, const F: usize, const V: usize> = VolumeManager<&'a Dev, &'a Clock, D, F, V>;
